@@ -2394,7 +2394,13 @@ fn sweep_vars<K: CKind>(ctx: &mut Ctx, st: &mut St<K>, va: &Val<K>, vb: &Val<K>)
     };
 
     set_name(core, ctx, 0, "a");
+    // the same name for the same variable again (no clash with itself), then a genuine clash
+    set_name(core, ctx, 0, "a");
     set_name(core, ctx, 1, "a");
+    set_name(core, ctx, 2, "");
+    // rename and name it back, un-name twice
+    set_name(core, ctx, 0, "b");
+    set_name(core, ctx, 0, "a");
     set_name(core, ctx, 2, "");
     lookup(core, ctx, "a");
     lookup(core, ctx, "zz");
